@@ -786,6 +786,7 @@ def make_builtins(I):
     reg("type", lambda x: x.cls if isinstance(x, SymObj) else Builtin(type(x).__name__, None))
     reg("map", lambda f, *its: [I.call(f, list(t), {}) for t in zip(*[iterate(I, x) for x in its])])
     reg("object", lambda: I.new_obj("object"))
+    reg("eval", lambda *a: None)
     reg("id", lambda x: sp.Integer(x.id if isinstance(x, SymObj) else id(x)))
     reg("hash", lambda x: sp.Integer(x.id if isinstance(x, SymObj) else hash(x)))
     reg("staticmethod", lambda f: ("static", f))
